@@ -13,6 +13,7 @@ import (
 type Solver struct {
 	cmd     *exec.Cmd
 	in      io.WriteCloser
+	w       *bufio.Writer
 	out     *bufio.Reader
 	level   int
 	defined map[*T]int // term -> level at which it was defined
@@ -35,8 +36,8 @@ func NewSolver() *Solver {
 	if err := cmd.Start(); err != nil {
 		panic(err)
 	}
-	s := &Solver{cmd: cmd, in: in, out: bufio.NewReader(out), defined: map[*T]int{}, defLog: [][]*T{nil}, funcs: map[string]int{}, funLog: [][]string{nil}}
-	s.send("(set-option :timeout 60000)")
+	s := &Solver{cmd: cmd, in: in, w: bufio.NewWriterSize(in, 1<<16), out: bufio.NewReader(out), defined: map[*T]int{}, defLog: [][]*T{nil}, funcs: map[string]int{}, funLog: [][]string{nil}}
+	s.send("(set-option :timeout 20000)")
 	s.send("(set-logic QF_UFBV)")
 	return s
 }
@@ -45,8 +46,8 @@ func (s *Solver) send(str string) {
 	if s.Log != nil {
 		fmt.Fprintln(s.Log, str)
 	}
-	io.WriteString(s.in, str)
-	io.WriteString(s.in, "\n")
+	s.w.WriteString(str)
+	s.w.WriteByte('\n')
 }
 
 func (s *Solver) Push() {
@@ -171,6 +172,7 @@ func (s *Solver) Assert(t *T) {
 }
 
 func (s *Solver) readLine() string {
+	s.w.Flush()
 	l, err := s.out.ReadString('\n')
 	if err != nil {
 		panic("solver died: " + err.Error())
@@ -271,4 +273,4 @@ func (s *Solver) Bind(t *T) *T {
 	return v
 }
 
-func (s *Solver) Close() { s.in.Close(); s.cmd.Wait() }
+func (s *Solver) Close() { s.w.Flush(); s.in.Close(); s.cmd.Wait() }
